@@ -233,3 +233,15 @@ CHECKS["C17"] = {
     ],
     "deadline": {"quick": 300, "thorough": 3000},
 }
+
+CHECKS["C08"] = {
+    "level": "exploration",
+    "assumptions": ["Go-source granularity: the compiler is assumed not to turn branch-free Go into secret-dependent branches; math/bits and crypto/subtle are intrinsics / trusted constant-time",
+                    "only the enumerated secrets are compared; micro-architectural effects are out of scope",
+                    "math/big glue inside SignHashed is outside the primitives the statement lists (recorded as an observation)"],
+    "prepare": {"trace": [["bash", "{verif}/tools/prep_trace.sh", "{repo}"]]},
+    "parts": [
+        {"name": "ct-trace", "variant": "trace", "pkg": "sm2", "run": "TestVX_C08", "public_files": SM2P + ["sm2/C08_pub_test.go"], "shards": 8},
+    ],
+    "deadline": {"quick": 200, "thorough": 2400},
+}
